@@ -91,12 +91,19 @@ impl<'a> AggGen<'a> {
         }
     }
 
+    /// a value that is an INT on some rows and a REAL on others (half of the time of the same numeric value: 1 and 1.0)
+    fn mixed_numeric(&self, t: &mut Tape) -> Option<E> {
+        let c = self.col_of(t, &[Ty::Int])?;
+        let int = t.range(0, 2);
+        let real = if t.chance(1, 2) { E::Real(format!("{}.0", int)) } else { E::Real(t.pick(&["0.5", "1.5", "0.0", "1.0", "2.0"]).to_string()) };
+        let (a, b) = if t.chance(1, 2) { (E::Int(int), real) } else { (real, E::Int(int)) };
+        Some(E::Case(vec![(E::bin(BinOp::Gt, c, E::Int(t.range(0, 2))), a)], Box::new(b)))
+    }
+
     fn numeric_arg(&self, t: &mut Tape) -> E {
         if t.chance(1, 12) {
-            // a value that is an INT on some rows and a REAL on others
-            if let Some(c) = self.col_of(t, &[Ty::Int]) {
-                let (a, b) = if t.chance(1, 2) { (E::Int(t.range(0, 2)), E::Real("0.5".into())) } else { (E::Real("1.5".into()), E::Int(t.range(0, 2))) };
-                return E::Case(vec![(E::bin(BinOp::Gt, c, E::Int(t.range(0, 2))), a)], Box::new(b));
+            if let Some(e) = self.mixed_numeric(t) {
+                return e;
             }
         }
         let c = self.col_of(t, &[Ty::Int, Ty::Real]).unwrap_or(E::Int(1));
@@ -127,7 +134,9 @@ impl<'a> AggGen<'a> {
             4 | 5 => {
                 let name = if t.chance(1, 2) { "MIN" } else { "MAX" };
                 let tys: &[Ty] = if self.ctx.excluded("c04_minmax_nonnumeric") { &[Ty::Int, Ty::Real, Ty::Iv] } else { &[Ty::Int, Ty::Real, Ty::Text, Ty::Ts, Ty::Iv, Ty::Bool] };
-                agg(name, vec![self.col_of(t, tys).unwrap_or(E::Int(1))])
+                // (one in ten over a value that is an INT on some rows and a REAL on others)
+                let arg = if t.chance(1, 10) { self.mixed_numeric(t) } else { None };
+                agg(name, vec![arg.or_else(|| self.col_of(t, tys)).unwrap_or(E::Int(1))])
             }
             6 => agg("AVG", vec![self.numeric_arg(t)]),
             7 => agg(if t.chance(1, 2) { "STDDEV" } else { "VARIANCE" }, vec![self.numeric_arg(t)]),
@@ -147,9 +156,21 @@ impl<'a> AggGen<'a> {
                     }
                     _ => format!("0.{}", t.range(1, 99)),
                 };
-                agg("PERCENTILE", vec![self.col_of(t, &[Ty::Int, Ty::Real, Ty::Text]).unwrap_or(E::Int(1)), E::Real(p)])
+                // (one in four over an expression, which may give an INT on some rows and an equal REAL on others)
+                let arg = match t.draw(8) {
+                    0 => self.mixed_numeric(t),
+                    1 => Some(self.numeric_arg(t)),
+                    _ => None,
+                };
+                let arg = arg.or_else(|| self.col_of(t, &[Ty::Int, Ty::Real, Ty::Text])).unwrap_or(E::Int(1));
+                agg("PERCENTILE", vec![arg, E::Real(p)])
             }
             9 | 10 => {
+                // (one in five: a regular expression that is itself a value of the row - compiled per row, not per statement)
+                let per_row_pattern = if t.chance(1, 5) { self.col_of(t, &[Ty::Text]).and_then(|subject| self.col_of(t, &[Ty::Text]).map(|pattern| E::call("regexp_matches", vec![subject, pattern]))) } else { None };
+                if let Some(arg) = per_row_pattern {
+                    return agg(if t.chance(1, 2) { "BOOL_AND" } else { "BOOL_OR" }, vec![arg]);
+                }
                 let arg = match self.col_of(t, &[Ty::Bool]) {
                     Some(c) if !t.chance(1, 3) => c,
                     _ => E::bin(*t.pick(&[BinOp::Gt, BinOp::Eq, BinOp::Le]), self.col_of(t, &[Ty::Int]).unwrap_or(E::Int(1)), E::Int(t.range(0, 2))),
@@ -164,6 +185,16 @@ impl<'a> AggGen<'a> {
     pub fn wrapped(&mut self, t: &mut Tape, agg: E) -> E {
         let numeric = matches!(&agg, E::Agg(n, _, _) if ["COUNT", "SUM"].contains(&n.as_str()));
         let count = matches!(&agg, E::Agg(n, _, _) if n == "COUNT");
+        // wrappers whose result depends on the type of the aggregate's value, not only on its number
+        let mixed_arg = matches!(&agg, E::Agg(_, _, args) if matches!(args.first(), Some(E::Case(_, _))));
+        if matches!(&agg, E::Agg(n, _, _) if ["SUM", "AVG", "MIN", "MAX", "COUNT"].contains(&n.as_str())) && t.chance(1, if mixed_arg { 2 } else { 8 }) {
+            let summing = matches!(&agg, E::Agg(n, _, _) if ["SUM", "AVG", "COUNT"].contains(&n.as_str()));
+            return match t.draw(3) {
+                0 if summing => E::Neg(Box::new(agg)),
+                1 if summing => E::bin(BinOp::Add, agg, E::Int(1)),
+                _ => E::cast(agg, "TEXT"),
+            };
+        }
         if !numeric || !t.chance(1, 4) {
             return agg;
         }
@@ -177,6 +208,12 @@ impl<'a> AggGen<'a> {
     }
 
     pub fn group_key(&mut self, t: &mut Tape) -> E {
+        if t.chance(1, 14) {
+            // a key that is an INT on some rows and a REAL (possibly of the same value: one group) on others
+            if let Some(e) = self.mixed_numeric(t) {
+                return e;
+            }
+        }
         let c = self.col_of(t, &[Ty::Int, Ty::Text, Ty::Bool, Ty::Real, Ty::Ts]).unwrap_or(E::Int(1));
         let ty = if let E::Col(n) = &c { self.table.cols.iter().find(|x| &x.0 == n).map(|x| x.1) } else { None };
         if t.chance(1, 5) {
@@ -252,6 +289,12 @@ pub fn gen_aggregate_query(t: &mut Tape, table: &DataTable, ctx: &Ctx, order_sen
         let scope = Scope { cols: table.cols.clone() };
         let mut tg = TypedGen::new(&scope, GenCfg::plain(), ctx);
         q.filter = Some(tg.gen(t, Ty::Bool, 2));
+        // (one filter in eight: a regular expression taken from the row itself)
+        if t.chance(1, 8) {
+            if let (Some(subject), Some(pattern)) = (g.col_of(t, &[Ty::Text]), g.col_of(t, &[Ty::Text])) {
+                q.filter = Some(E::call("regexp_matches", vec![subject, pattern]));
+            }
+        }
     }
     if t.chance(1, 3) {
         let nterms = 1 + t.weighted(&[5, 3, 2]);
@@ -534,9 +577,6 @@ fn check_var_slice(rows: &[(u8, String, String)], ctx: &Ctx, obs: &mut Obs) -> R
     let files = scratch_files(ctx, "c04v", &[lines_to_bytes(&lines)]);
     let out = run_batch(&tables, &statement, &files, RunOptions::default()).map_err(|p| Failure::new(format!("panic: {}", crate::run::panic_class(&p)), format!("panicked: {}\n  lines {:?}", p, lines)))?;
     let context = format!("query: {}\n  table: {}\n  lines: {:?}\n  output: {:?}", query, defs, lines, out.lines);
-    if out.result.is_err() {
-        return Err(Failure::new("accuracy-slice: error", format!("{:?}\n  {}", out.result, context)));
-    }
     let mut groups: std::collections::BTreeMap<u8, (Vec<f64>, Vec<i64>)> = std::collections::BTreeMap::new();
     for (g, r, i) in rows {
         let e = groups.entry(*g).or_default();
@@ -546,6 +586,15 @@ fn check_var_slice(rows: &[(u8, String, String)], ctx: &Ctx, obs: &mut Obs) -> R
         if let Ok(v) = i.parse::<i64>() {
             e.1.push(v);
         }
+    }
+    if out.result.is_err() {
+        // a sum of squares that leaves 64 bits may be reported as an overflow (the running sums are INTs)
+        let squares_leave_i64 = groups.values().any(|(_, ints)| ints.iter().map(|x| (*x as i128) * (*x as i128)).sum::<i128>() > i64::MAX as i128);
+        if squares_leave_i64 && format!("{:?}", out.result).contains("overflow") {
+            obs.label("accuracy-slice-overflow-reported");
+            return Ok(());
+        }
+        return Err(Failure::new("accuracy-slice: error", format!("{:?}\n  {}", out.result, context)));
     }
     let records: Vec<J> = out.records().iter().filter_map(|r| parse_json(r).ok()).collect();
     let num = |j: Option<&J>| -> Option<f64> {
@@ -616,7 +665,8 @@ impl Property for C04 {
     fn rule(&self) -> String {
         "a typed table x up to 14 lines over small value domains (so that groups form; NULL with probability 1/4 per cell; non-admitted lines; one case in eight: up to 90 lines over a wide key domain, dozens of groups) x an aggregate statement: any mix and order of key \
          expressions and COUNT(*) / COUNT() / COUNT(c) / COUNT(DISTINCT c) / SUM / MIN / MAX / AVG / STDDEV / VARIANCE / PERCENTILE(p incl. 0.0 and 1.0) / BOOL_AND / BOOL_OR / STRING_AGG / ARRAY_AGG, \
-         arithmetic or function wrappers, 0-2 GROUP BY elements (column or expression), optional WHERE, optional HAVING over aggregates (also ones absent from the select list) and keys. \
+         arithmetic or function wrappers (also ones whose result depends on the type of the aggregate's value: unary minus, + 1, ::TEXT), arguments and keys that are an INT on some rows and a REAL - possibly of the same value - on others, \
+         BOOL_AND / BOOL_OR and WHERE over a regular expression that is itself a value of the row, STDDEV / VARIANCE over close INTs around 1.7e9 and 4e12, one table in six with a DEFAULT column, 0-2 GROUP BY elements (column or expression), optional WHERE, optional HAVING over aggregates (also ones absent from the select list) and keys. \
          Oracle: naive filter / bucket-by-equal-key / order / fold reference over the rows the real extract produced; table compared row by row and cell by cell (PERCENTILE by a validity predicate, \
          AVG(INT) truncated or real, STDDEV/VARIANCE population form with tolerance). Non-trivial: >= 2 groups, a group with >= 2 rows and an aggregate argument that is NULL on some row; distinct by case."
             .to_string()
@@ -658,7 +708,7 @@ impl Property for C04 {
         };
         let var_rows = if nan_rows.is_none() && t.chance(1, 15) {
             let n = 2 + t.draw(7);
-            let family = t.draw(3);
+            let family = t.draw(5);
             Some(
                 (0..n)
                     .map(|_| {
@@ -669,6 +719,9 @@ impl Property for C04 {
                         };
                         let i = match family {
                             1 => *t.pick(&["100000000", "100000001", "100000002", "100000001", ""]),
+                            // close together and so large that the square of their sum leaves 64 bits (Unix seconds, byte counters)
+                            3 => *t.pick(&["1700000000", "1700000002", "1700000001", "1699999999", ""]),
+                            4 => *t.pick(&["4000000000000", "4000000000001", "4000000000003", "3999999999999", "-4000000000000"]),
                             _ => *t.pick(&["3", "4", "1000000007", "-5", "0", ""]),
                         };
                         (t.draw(2) as u8, r.to_string(), i.to_string())
